@@ -432,6 +432,12 @@ int x509_explicit_directory_name_from_der(int index, int *tag, const uint8_t **d
 
 	if ((ret = asn1_explicit_from_der(index, &p, &len, in, inlen)) != 1) {
 		if (ret < 0) error_print();
+		else {
+			// an absent OPTIONAL [index] DirectoryString
+			*tag = -1;
+			*d = NULL;
+			*dlen = 0;
+		}
 		return ret;
 	}
 	if (x509_directory_name_from_der(tag, d, dlen, &p, &len) != 1
